@@ -210,6 +210,7 @@ fn produce_generated(t: &mut Tape, world_no: u64, rep: &mut WorldReport) -> Opti
                 } else {
                     None
                 },
+                script: None,
             };
             set.insert(u.to_utxo(&(vec![0x70 + qi as u8; 32], j as u32)));
         }
@@ -357,6 +358,41 @@ fn schema_nest(t: &mut Tape, clean: &[u8]) -> (Vec<u8>, String) {
     };
     let mbytes = enc(&marker);
     let find = |hay: &[u8], needle: &[u8]| hay.windows(needle.len()).position(|w| w == needle);
+    if t.chance(1, 6) {
+        // well-formed CBOR with a long non-ASCII identifier where a variant name is expected: the
+        // decoder quotes it in its error message
+        let host = tir::Tx {
+            fees: marker.clone(),
+            references: vec![],
+            inputs: vec![],
+            outputs: vec![],
+            validity: None,
+            mints: vec![],
+            burns: vec![],
+            adhoc: vec![],
+            collateral: vec![],
+            signers: None,
+            metadata: vec![],
+        };
+        let (hbytes, _) = tx3_tir::encoding::to_bytes(&host);
+        let at = find(&hbytes, &mbytes).expect("marker inside host");
+        let pad = *t.pick(&[0usize, 1, 2, 3]);
+        let ch = *t.pick(&["é", "日", "😀", "ñ"]);
+        let n = *t.pick(&[300usize, 600, 1200, 2000]);
+        let ident = format!("{}{}", "a".repeat(pad), ch.repeat(n));
+        let mut v = Vec::new();
+        let as_text = t.chance(2, 3);
+        let val = if as_text {
+            ciborium::value::Value::Map(vec![(ciborium::value::Value::Text(ident.clone()), ciborium::value::Value::Integer(1.into()))])
+        } else {
+            ciborium::value::Value::Map(vec![(ciborium::value::Value::Bytes(vec![0xff; n.min(900)]), ciborium::value::Value::Integer(1.into()))])
+        };
+        ciborium::into_writer(&val, &mut v).unwrap();
+        let mut out = hbytes[..at].to_vec();
+        out.extend_from_slice(&v);
+        out.extend_from_slice(&hbytes[at + mbytes.len()..]);
+        return (out, format!("fees := a variant named by {} bytes of {}", ident.len(), if as_text { "non-ASCII text" } else { "invalid UTF-8" }));
+    }
     let kind = t.draw(8);
     let (level, lname) = match kind {
         0 => (tir::Expression::List(vec![marker.clone()]), "List"),
@@ -960,7 +996,12 @@ fn render_bad(t: &mut Tape, ty: &Type) -> (J, String) {
             1 => (json!("0x00112233445566778899aabbccddeeff00"), "hex-17-bytes".into()),
             2 => (json!("12a"), "decimal-with-letter".into()),
             3 => (json!(""), "empty-string".into()),
-            4 => (json!(1.5), "float".into()),
+            4 => match t.draw(3) {
+                0 => (json!(1.5), "float".into()),
+                // beyond 64 bits a JSON number reaches the server as a double: the digits are gone
+                1 => (json!(18446744073709551617.0f64), "number-beyond-u64".into()),
+                _ => (json!(-1.0e30f64), "number-beyond-i64".into()),
+            },
             5 => (json!("0xzz112233445566778899aabbccddeeff"), "hex-bad-chars".into()),
             _ => (json!([1]), "array".into()),
         },
